@@ -27,18 +27,21 @@ var processStart = time.Now()
 
 func main() {
 	var (
-		prop     = flag.String("property", "", "property id (C01…C20) or 'all'")
-		tier     = flag.String("tier", "quick", "quick|thorough")
-		root     = flag.String("root", "/repo", "root of the lime-go tree to analyse")
-		evDir    = flag.String("evidence", "", "directory for evidence files (default <verif>/evidence)")
-		knownF   = flag.String("known", "", "known findings file (default <verif>/known_findings.json)")
-		tags     = flag.String("tags", "verif", "build tags")
-		explain  = flag.String("explain", "", "evidence file to re-derive and print")
-		verbose  = flag.Bool("v", false, "print every obligation")
-		noSelf   = flag.Bool("noselftest", false, "skip the self-test corpus in the thorough tier")
-		goarch   = flag.String("goarch", "", "GOARCH for loading")
-		listOnly = flag.Bool("list", false, "list registered properties")
+		prop      = flag.String("property", "", "property id (C01…C20) or 'all'")
+		tier      = flag.String("tier", "quick", "quick|thorough")
+		root      = flag.String("root", "/repo", "root of the lime-go tree to analyse")
+		evDir     = flag.String("evidence", "", "directory for evidence files (default <verif>/evidence)")
+		knownF    = flag.String("known", "", "known findings file (default <verif>/known_findings.json)")
+		tags      = flag.String("tags", "verif", "build tags")
+		explain   = flag.String("explain", "", "evidence file to re-derive and print")
+		verbose   = flag.Bool("v", false, "print every obligation")
+		noSelf    = flag.Bool("noselftest", false, "skip the self-test corpus in the thorough tier")
+		goarch    = flag.String("goarch", "", "GOARCH for loading")
+		listOnly  = flag.Bool("list", false, "list registered properties")
+		dumpKnown = flag.Bool("dumpknown", false, "print the private functions of the tree as a knownPrivate table")
+		showInl   = flag.Bool("showinline", false, "print what the helper normalisation did")
 	)
+	flag.BoolVar(&noInline, "noinline", false, "skip the helper normalisation (debugging)")
 	flag.Parse()
 	verif := verifDir()
 	if *evDir == "" {
@@ -102,6 +105,20 @@ func main() {
 			writeFailedEvidence(*evDir, id, *tier, seed, err)
 		}
 		os.Exit(2)
+	}
+	if *dumpKnown {
+		for _, fn := range p.privateFuncs() {
+			if fn.Pkg == p.Lime {
+				fmt.Printf("\t%q: %q,\n", privateKey(fn), fnSigString(fn))
+			}
+		}
+		return
+	}
+	if *showInl && p.Inl != nil {
+		fmt.Printf("inlined calls=%d devirtualised=%d threaded edges=%d dead helpers=%d\n", p.Inl.nCalls, p.Inl.nDevirt, p.Inl.nThread, len(p.Inl.dead))
+		for _, l := range p.Inl.Log {
+			fmt.Println("  ", l)
+		}
 	}
 	exit := 0
 	for _, id := range props {
